@@ -27,7 +27,7 @@ NAN = float("nan")
 
 
 def plan(tier, seed):
-    n = 10 if tier == "quick" else 300
+    n = 16 if tier == "quick" else 300
     shards = [{"part": "pair", "seed": seed, "k": k, "n": n} for k in range(12)]
     shards += [{"part": "text2nc", "seed": seed, "k": k, "n": 4 if tier == "quick" else 70} for k in range(4)]
     return shards
